@@ -110,6 +110,18 @@ theorem C06_bounded_partial (d : Q → UNT U) (A : DFTA Sym Q) (hinj : InjOn d A
   exact bounded_key hb ok rank hrank _ s q (rank_le_levelOf A rank q hqa)
     (hb.starts s (by rw [hb.starts_eq]; exact hs)) hqa (by rw [← hqs, ok.proj_root])
 
+/-- **`programs()` returns** on the grammar of an acyclic automaton, for every recursion budget
+    beyond a bound computed from the ranking (the Python recursion is unbounded) — together with
+    `C06_count_partial`: total correctness of `programs()`. -/
+theorem C06_programs_terminates_partial (d : Q → UNT U) (A : DFTA Sym Q) (hinj : InjOn d A)
+    (rank : Q → Nat) (hrank : ∀ r ∈ A.rules, ∀ a ∈ r.1.2, rank a < rank r.2)
+    (G : UCFG U) (h : fromDFTA d A = some G) (fuel : Nat) (hf : levelOf A rank + 1 ≤ fuel) :
+    ∃ n, programs G fuel = some n := by
+  have hb : ∀ s ∈ G.starts, boundedU G (levelOf A rank + 1) s = true :=
+    fun s hs => C06_bounded_partial d A hinj rank hrank G h s hs
+  have := programsFrom_isSome G _ fuel hf G.starts 0 [] hb
+  exact Option.isSome_iff_exists.mp this
+
 /-! ## with the Python state values and `__d2state__` -/
 
 theorem injOn_of_d2Injective (fixed : Bool) (A : DFTA Sym PyVal) (h : d2Injective fixed A = true) :
